@@ -87,6 +87,13 @@ def check(prop, tier, seed, no_build=False):
                     if fn.endswith('.json'):
                         r = json.load(open(os.path.join(cdir, fn)))
                         violations += C.differential(r['engine'], [r['script']], result, prop, tier)
+            for run in cfg.get('iruns', []):
+                engine, gen, nq, nt = run[:4]
+                n = nq if tier == 'quick' else nt
+                if not violations:
+                    violations += C.differential_interactive(engine, gen, n, rng, tier, result,
+                                                             nontrivial=cfg.get('nontrivial', nontrivial_default),
+                                                             keep_prefix=cfg.get('keep_prefix', 0))
             for run in cfg.get('runs', []):
                 engine, gen, nq, nt = run[:4]
                 n = nq if tier == 'quick' else nt
